@@ -18,7 +18,7 @@ def main():
     signal.signal(signal.SIGALRM, on_alarm)
     signal.alarm(limit)
     import logging
-    logging.getLogger('pyhf').setLevel(logging.ERROR)
+    logging.getLogger('pyhf').setLevel(logging.CRITICAL)
     mod = importlib.import_module(f'harness.props.{a.pid.lower()}')
     replay = json.load(open(a.replay)) if a.replay else None
     ctx = core.Ctx(a.pid, a.tier, seed, replay)
